@@ -180,17 +180,11 @@ func judgeC11(c c11Case) (v core.Verdict) {
 		sf = append(sf, reflect.StructField{Name: f, Type: reflect.TypeOf("")})
 	}
 	st := reflect.StructOf(sf) // a type nobody has seen: the field cache is filled concurrently
-	// serial expectations on a private, identically built Set
-	private := c11Build(c, st)
-	want := map[string]c11Result{}
+	// non-triviality: >=2 executions of the same template name race for its first load
 	firstLoad := map[string]int{}
 	for _, ops := range c.Workers {
 		for _, op := range ops {
 			if op.Op == "exec" {
-				k := fmt.Sprintf("%s#%d", op.Name, op.Data)
-				if _, ok := want[k]; !ok {
-					want[k] = private.exec(op.Name, op.Data)
-				}
 				firstLoad[op.Name]++
 			}
 		}
@@ -203,9 +197,16 @@ func judgeC11(c c11Case) (v core.Verdict) {
 	}
 	v.NonTrivial = overlap
 	v.Label(fmt.Sprintf("dev:%v", c.Dev), fmt.Sprintf("workers:%d", len(c.Workers)))
+	// The concurrent runs come first: the struct type of this case has never been seen, so the
+	// field cache is filled by racing goroutines. The serial expectations are computed afterwards.
+	type obs struct {
+		worker int
+		op     c11Op
+		got    c11Result
+	}
 	var mu sync.Mutex
-	var problem string
-	for rep := 0; rep < c.Repeat && problem == ""; rep++ {
+	var seen []obs
+	for rep := 0; rep < c.Repeat; rep++ {
 		world := c11Build(c, st)
 		start := make(chan struct{})
 		var wg sync.WaitGroup
@@ -214,18 +215,11 @@ func judgeC11(c c11Case) (v core.Verdict) {
 			go func(wi int, ops []c11Op) {
 				defer wg.Done()
 				<-start
+				var mine []obs
 				for _, op := range ops {
 					switch op.Op {
 					case "exec":
-						got := world.exec(op.Name, op.Data)
-						w := want[fmt.Sprintf("%s#%d", op.Name, op.Data)]
-						if got != w {
-							mu.Lock()
-							if problem == "" {
-								problem = fmt.Sprintf("worker %d: Execute(%s, data %d) concurrently gave out=%q err=%q failed=%v; alone it gives out=%q err=%q failed=%v", wi, op.Name, op.Data, got.out, got.pos, got.failed, w.out, w.pos, w.failed)
-							}
-							mu.Unlock()
-						}
+						mine = append(mine, obs{wi, op, world.exec(op.Name, op.Data)})
 					case "get":
 						jetrun.Get(world.set, op.Name)
 					case "parse":
@@ -248,10 +242,27 @@ func judgeC11(c c11Case) (v core.Verdict) {
 						world.loader.Delete(op.Name)
 					}
 				}
+				mu.Lock()
+				seen = append(seen, mine...)
+				mu.Unlock()
 			}(wi, ops)
 		}
 		close(start)
 		wg.Wait()
+	}
+	private := c11Build(c, st)
+	want := map[string]c11Result{}
+	problem := ""
+	for _, o := range seen {
+		k := fmt.Sprintf("%s#%d", o.op.Name, o.op.Data)
+		w, ok := want[k]
+		if !ok {
+			w = private.exec(o.op.Name, o.op.Data)
+			want[k] = w
+		}
+		if o.got != w && problem == "" {
+			problem = fmt.Sprintf("worker %d: Execute(%s, data %d) concurrently gave out=%q err=%q failed=%v; alone it gives out=%q err=%q failed=%v", o.worker, o.op.Name, o.op.Data, o.got.out, o.got.pos, o.got.failed, w.out, w.pos, w.failed)
+		}
 	}
 	if problem != "" {
 		v.Failf("%s (dev=%v, templates %q)", problem, c.Dev, c.Src)
